@@ -209,8 +209,9 @@ def run(ctx) -> None:
         for gen, which in (("new", "new"), ("old", "old")):
             cat = cw.make(base / f"src_{gen}", which)
             rnd = yaw.Catalog(aux / "rnd", max_workers=1)
-            unk = yaw.Catalog(aux / "refaux", max_workers=1)
-            (cf,) = yaw.crosscorrelate(cw.config_for("A"), cat, unk, ref_rand=rnd, unk_rand=rnd, max_workers=1)   # dd, dr, rd, rr
+            unk = yaw.Catalog(aux / "unkaux", max_workers=1)
+            rnd2 = yaw.Catalog(aux / "rnd2", max_workers=1)
+            (cf,) = yaw.crosscorrelate(cw.config_for("A"), cat, unk, ref_rand=rnd, unk_rand=rnd2, max_workers=1)   # dd, dr, rd, rr
             cf.to_file(inputs / f"cf_{gen}.hdf")
             cf.sample().to_files(inputs / f"cd_{gen}")
             gens[gen] = cf
